@@ -10,6 +10,7 @@ import (
 	"encoding/hex"
 	"encoding/json"
 	"fmt"
+	epb "github.com/google/gce-tcb-verifier/proto/endorsement"
 	"math/rand"
 	"strconv"
 	"sync"
@@ -37,6 +38,7 @@ type snpFw struct {
 	Secs    []snpSec `json:"secs"`
 	Vcpus   int      `json:"vcpus"`
 	Product string   `json:"product"`
+	Base    string   `json:"base"`
 }
 type snpOp struct {
 	T     string `json:"t"`
@@ -51,11 +53,18 @@ type snpConst struct {
 
 const secBase = 0xff000000
 
-func concAddr(a int) uint32 {
-	if a >= 90 {
-		return secBase + 0x7000 + 0x800 // not page aligned
+func concAddr(a int) uint32 { return concAddrAt(a, "high") }
+
+// concAddrAt: base "zero" puts address unit 0 at guest-physical address 0
+func concAddrAt(a int, base string) uint32 {
+	b := uint32(secBase)
+	if base == "zero" {
+		b = 0
 	}
-	return secBase + uint32(a)*0x1000
+	if a >= 90 {
+		return b + 0x7000 + 0x800 // not page aligned
+	}
+	return b + uint32(a)*0x1000
 }
 func concLen(l int) uint32 {
 	if l >= 90 {
@@ -113,7 +122,7 @@ func refDigest(e *abiref.Exported, c *snpConst, img []byte, f snpFw, ops []snpOp
 			h := sha512.Sum384(pg)
 			step(h[:], op.T, (uint64(1)<<32)-uint64(len(img))+uint64(op.Page)*4096)
 		case "sec":
-			step(make([]byte, 48), op.T, uint64(concAddr(op.Page)))
+			step(make([]byte, 48), op.T, uint64(concAddrAt(op.Page, f.Base)))
 		default:
 			h := sha512.Sum384(vmsaPage(e, c, op.Where == "ap", resetAddr))
 			step(h[:], op.T, top)
@@ -125,10 +134,12 @@ func refDigest(e *abiref.Exported, c *snpConst, img []byte, f snpFw, ops []snpOp
 func buildSnpImage(f snpFw, seed int64, resetAddr uint32) ([]byte, error) {
 	img := make([]byte, f.Rom*4096)
 	r := rand.New(rand.NewSource(seed))
-	r.Read(img[0x200:0xe00])
+	// every page but the last gets its own contents; the last one holds the GUID table at its end
+	r.Read(img[:len(img)-4096])
+	r.Read(img[len(img)-4096+0x200 : len(img)-4096+0xe00])
 	var secs []oabi.SevMetadataSection
 	for _, s := range f.Secs {
-		secs = append(secs, oabi.SevMetadataSection{Address: concAddr(s.Addr), Length: concLen(s.Len), Kind: s.Kind})
+		secs = append(secs, oabi.SevMetadataSection{Address: concAddrAt(s.Addr, f.Base), Length: concLen(s.Len), Kind: s.Kind})
 	}
 	if err := fakeovmf.InitializeSevGUIDTable(img, oabi.FwGUIDTableEndOffset, resetAddr, secs); err != nil {
 		return nil, err
@@ -154,9 +165,9 @@ func RunC04(run *vk.Run) {
 	run.Assumptions = append(run.Assumptions, "TLC decides the order of operations, page types, addresses in page units and the rejection rules; byte-level agreement is decided by executing the spec-derived operation sequence through the PAGE_INFO / VMSA layout tables and comparing digests",
 		"page contents are pseudo-random, section addresses come from a small pool below 4 GiB; sections crossing 4 GiB are not enumerated",
 		"the oracle is calibrated against the measurement pinned in the repository's tests (verifytest.CleanExampleMeasurement)")
-	cfgs := []string{"quick", "bad"}
+	cfgs := []string{"quick", "bad", "rom"}
 	if !run.IsQuick() {
-		cfgs = []string{"quick", "bad", "four"}
+		cfgs = []string{"quick", "bad", "four", "rom_thorough"}
 	}
 	var consts *snpConst
 	type emitted struct {
@@ -213,7 +224,7 @@ func RunC04(run *vk.Run) {
 	var drift int64
 	var mu sync.Mutex
 	rp.Parallel(len(all), func(i int) {
-		if (i+int(run.Seed))%stride != 0 {
+		if !vk.Pick(i, run.Seed, stride) {
 			return
 		}
 		var c emitted
@@ -310,6 +321,79 @@ func RunC04(run *vk.Run) {
 			run.Case(fmt.Sprintf("vcpus:%s:%d", prod, n), true)
 		}
 	}
+	// the "all supported counts" request (LaunchVmsas = 0) of the endorsement path: every entry must be
+	// the digest of its own count, on the 2 MiB example and on a generated image with declared sections
+	type allCase struct {
+		name string
+		img  []byte
+		ops  func(n int) []snpOp
+		f    snpFw
+		rst  uint32
+	}
+	romSecOps := func(rom int, so []snpOp) func(n int) []snpOp {
+		return func(n int) []snpOp {
+			var ops []snpOp
+			for p := 0; p < rom; p++ {
+				ops = append(ops, snpOp{"NORMAL", "rom", p})
+			}
+			ops = append(ops, so...)
+			for v := 0; v < n; v++ {
+				w := "ap"
+				if v == 0 {
+					w = "bsp"
+				}
+				ops = append(ops, snpOp{"VMSA", w, 0})
+			}
+			return ops
+		}
+	}
+	var exSecOps []snpOp
+	for _, s := range secs {
+		t := map[uint32]string{1: "UNMEASURED", 2: "SECRETS", 3: "CPUID", 4: "ZERO"}[s.Kind]
+		for a := s.Address; a < s.Address+s.Length; a += 0x1000 {
+			exSecOps = append(exSecOps, snpOp{t, "sec", int((a - secBase) / 0x1000)})
+		}
+	}
+	allCases := []allCase{{name: "2 MiB example", img: img, ops: romSecOps(512, exSecOps), f: snpFw{Rom: 512}, rst: fakeovmf.SevEsAddrVal}}
+	gen := snpFw{Rom: 2, Secs: []snpSec{{Kind: 1, Addr: 1, Len: 1}, {Kind: 3, Addr: 3, Len: 1}, {Kind: 2, Addr: 2, Len: 1}}}
+	if gimg, gerr := buildSnpImage(gen, run.Seed*31+5, 0x8123f0a0); gerr == nil {
+		genOps := []snpOp{{"UNMEASURED", "sec", 1}, {"CPUID", "sec", 3}, {"SECRETS", "sec", 2}}
+		allCases = append(allCases, allCase{name: "generated image with sections declared out of address order", img: gimg, ops: romSecOps(2, genOps), f: gen, rst: 0x8123f0a0})
+	} else {
+		run.Infra(gerr)
+		return
+	}
+	for _, ac := range allCases {
+		for _, prod := range []string{"Milan", "Genoa"} {
+			var snp *epb.VMSevSnp
+			var uerr error
+			func() {
+				defer func() {
+					if p := recover(); p != nil {
+						uerr = fmt.Errorf("PANIC: %v", p)
+					}
+				}()
+				snp, uerr = sev.UnsignedSnp(ac.img, &sev.SnpEndorsementRequest{Product: productOf(prod), LaunchVmsas: 0})
+			}()
+			if uerr != nil {
+				run.Violation("all-counts-fails", fmt.Sprintf("%s: the all-counts SNP endorsement fails on %s: %v", ac.name, prod, uerr), nil)
+				continue
+			}
+			if len(snp.GetMeasurements()) != len(sev.AllSupportedVmsaCounts) {
+				run.Violation("all-counts-entries", fmt.Sprintf("%s on %s: %d entries for %d supported counts", ac.name, prod, len(snp.GetMeasurements()), len(sev.AllSupportedVmsaCounts)), nil)
+			}
+			for n, got := range snp.GetMeasurements() {
+				f := ac.f
+				f.Vcpus, f.Product = int(n), prod
+				want := refDigest(e, consts, ac.img, f, ac.ops(int(n)), ac.rst)
+				if !bytes.Equal(got, want) {
+					run.Violation("digest-differs:all-counts", fmt.Sprintf("%s on %s: the all-counts endorsement's entry for %d vCPUs is not the launch digest of the definition for that count", ac.name, prod, n), map[string]any{"product": prod, "count": n})
+					break
+				}
+				run.Case(fmt.Sprintf("allcounts:%s:%s:%d", ac.name, prod, n), true)
+			}
+		}
+	}
 	for _, n := range []int{0, -1} {
 		if _, err := sev.LaunchDigest(&sev.LaunchOptions{Vcpus: n, Product: productOf("Milan")}, img); err == nil {
 			run.Violation("bad-vcpus-accepted", fmt.Sprintf("launch vCPU count %d accepted", n), nil)
@@ -318,5 +402,48 @@ func RunC04(run *vk.Run) {
 	run.AddDrift(0)
 	_ = drift
 	run.Exhaustive = !run.IsQuick()
-	run.Rule = "every firmware description emitted by TLC from MeasureSnp.tla (all section lists up to 3 over 5 kinds x 3 addresses x 2 lengths x 2 vCPU counts x 2 products; all lists up to 3 over aligned/unaligned addresses and zero/unaligned lengths; thorough: all lists of 4 over 4 kinds x 4 addresses with 3 vCPUs) is built as a real image with pseudo-random contents; accepted descriptions must give the digest computed from the emitted operation sequence through the PAGE_INFO/VMSA tables, malformed ones must be rejected; quick replays a seeded fifth"
+	run.Rule = "every firmware description emitted by TLC from MeasureSnp.tla (all section lists up to 3 over 5 kinds x 3 addresses x 2 lengths x 2 vCPU counts x 2 products; all lists up to 4 over 3 kinds x addresses from guest-physical 0 with ROMs of 2, 5 and 7 pages (thorough: 4 kinds, 7 ROM sizes); all lists up to 3 over aligned/unaligned addresses and zero/unaligned lengths; thorough: all lists of 4 over 4 kinds x 4 addresses with 3 vCPUs) is built as a real image with pseudo-random contents; accepted descriptions must give the digest computed from the emitted operation sequence through the PAGE_INFO/VMSA tables, malformed ones must be rejected; quick replays a seeded fifth"
+}
+
+// OutOfOrderImage builds a 2-page image whose SNP metadata lists its sections out of address order and
+// returns, next to it, the launch digest of the ABI definition for a vCPU count and product (the same
+// oracle RunC04 uses: MeasureSnp.tla's constants interpreted through the PAGE_INFO / VMSA tables).
+// C06 uses it to compare signed entries with a value that does not come from sev.LaunchDigest.
+func OutOfOrderImage(run *vk.Run, seed int64) ([]byte, func(vcpus int, product string) []byte, error) {
+	e, _, err := abiref.Load()
+	if err != nil {
+		return nil, nil, err
+	}
+	em, err := vk.RunTLC(vk.TLCOpts{Module: "MeasureSnp", Config: "Emit_MeasureSnp_const.cfg", Workers: 1, Timeout: 5 * time.Minute})
+	if err != nil {
+		return nil, nil, err
+	}
+	run.AddTLC(em)
+	if len(em.Edges) == 0 {
+		return nil, nil, fmt.Errorf("MeasureSnp.tla did not emit its constants")
+	}
+	consts := &snpConst{}
+	if err := json.Unmarshal(em.Edges[0], consts); err != nil {
+		return nil, nil, err
+	}
+	const rst = 0x8123f0a0
+	gen := snpFw{Rom: 2, Base: "high", Secs: []snpSec{{Kind: 1, Addr: 2, Len: 1}, {Kind: 3, Addr: 3, Len: 1}, {Kind: 2, Addr: 1, Len: 1}, {Kind: 4, Addr: 0, Len: 1}}}
+	img, err := buildSnpImage(gen, seed, rst)
+	if err != nil {
+		return nil, nil, err
+	}
+	ref := func(vcpus int, product string) []byte {
+		ops := []snpOp{{"NORMAL", "rom", 0}, {"NORMAL", "rom", 1}, {"UNMEASURED", "sec", 2}, {"CPUID", "sec", 3}, {"SECRETS", "sec", 1}, {"ZERO", "sec", 0}}
+		for v := 0; v < vcpus; v++ {
+			w := "ap"
+			if v == 0 {
+				w = "bsp"
+			}
+			ops = append(ops, snpOp{"VMSA", w, 0})
+		}
+		f := gen
+		f.Vcpus, f.Product = vcpus, product
+		return refDigest(e, consts, img, f, ops, rst)
+	}
+	return img, ref, nil
 }
